@@ -16,7 +16,6 @@ fn write_avp(a: &AVP) -> Vec<u8> {
 // ------------------------------------------------------------------ C17
 
 //@ props=C17 tier=quick
-#[cfg_attr(kani, kani::proof)]
 pub fn c17_framing_capabilities_ctor() {
     let (x, y): (bool, bool) = (nd::any(), nd::any());
     let v = T::FramingCapabilities::new(x, y);
@@ -27,7 +26,6 @@ pub fn c17_framing_capabilities_ctor() {
 }
 
 //@ props=C17 tier=quick
-#[cfg_attr(kani, kani::proof)]
 pub fn c17_bearer_capabilities_ctor() {
     let (x, y): (bool, bool) = (nd::any(), nd::any());
     let v = T::BearerCapabilities::new(x, y);
@@ -38,7 +36,6 @@ pub fn c17_bearer_capabilities_ctor() {
 }
 
 //@ props=C17 tier=quick
-#[cfg_attr(kani, kani::proof)]
 pub fn c17_bearer_type_ctor() {
     let (x, y): (bool, bool) = (nd::any(), nd::any());
     let v = T::BearerType::new(x, y);
@@ -49,7 +46,6 @@ pub fn c17_bearer_type_ctor() {
 }
 
 //@ props=C17 tier=quick
-#[cfg_attr(kani, kani::proof)]
 pub fn c17_framing_type_ctor() {
     let (x, y): (bool, bool) = (nd::any(), nd::any());
     let v = T::FramingType::new(x, y);
@@ -63,8 +59,6 @@ pub fn c17_framing_type_ctor() {
 /// flipping any other bit changes neither accessor.
 macro_rules! mask_word_harness {
     ($name:ident, $ty:ident, $variant:ident, $num:expr, $a:ident, $b:ident) => {
-        #[cfg_attr(kani, kani::proof)]
-        #[cfg_attr(kani, kani::unwind(12))]
         pub fn $name() {
             let w: u32 = nd::any();
             let flip: u8 = nd::any();
@@ -90,20 +84,18 @@ macro_rules! mask_word_harness {
         }
     };
 }
-//@ props=C17,C03,C10 tier=quick
+//@ props=C17,C03,C10 tier=quick unwind=12
 mask_word_harness!(c17_framing_capabilities_word, FramingCapabilities, FramingCapabilities, 3, is_async_framing_supported, is_sync_framing_supported);
-//@ props=C17,C03,C10 tier=quick
+//@ props=C17,C03,C10 tier=quick unwind=12
 mask_word_harness!(c17_bearer_capabilities_word, BearerCapabilities, BearerCapabilities, 4, is_analog_access_supported, is_digital_access_supported);
-//@ props=C17,C03,C10 tier=quick
+//@ props=C17,C03,C10 tier=quick unwind=12
 mask_word_harness!(c17_bearer_type_word, BearerType, BearerType, 18, is_analog_request, is_digital_request);
-//@ props=C17,C03,C10 tier=quick
+//@ props=C17,C03,C10 tier=quick unwind=12
 mask_word_harness!(c17_framing_type_word, FramingType, FramingType, 19, is_analog_request, is_digital_request);
 
 // ------------------------------------------------------------------ C16
 
-//@ props=C16,C05,C20,C01 tier=quick
-#[cfg_attr(kani, kani::proof)]
-#[cfg_attr(kani, kani::unwind(12))]
+//@ props=C16,C05,C20,C01 tier=quick unwind=12
 pub fn c16_message_type_codes() {
     let x: u16 = nd::any();
     let p = x.to_be_bytes();
@@ -127,9 +119,7 @@ pub fn c16_message_type_codes() {
     witness!(!assigned && x > 16, "reject_high");
 }
 
-//@ props=C16,C05,C20,C01 tier=quick
-#[cfg_attr(kani, kani::proof)]
-#[cfg_attr(kani, kani::unwind(12))]
+//@ props=C16,C05,C20,C01 tier=quick unwind=12
 pub fn c16_error_type_codes() {
     let code: u16 = nd::any();
     let x: u16 = nd::any();
@@ -161,9 +151,7 @@ pub fn c16_error_type_codes() {
     witness!(x == 9, "reject_9");
 }
 
-//@ props=C16,C05,C01 tier=quick
-#[cfg_attr(kani, kani::proof)]
-#[cfg_attr(kani, kani::unwind(12))]
+//@ props=C16,C05,C01 tier=quick unwind=12
 pub fn c16_proxy_authen_type_codes() {
     let x: u16 = nd::any();
     let p = x.to_be_bytes();
@@ -213,9 +201,7 @@ fn cdn_number(c: &T::result_code::CdnCode) -> u16 {
     }
 }
 
-//@ props=C16 tier=quick
-#[cfg_attr(kani, kani::proof)]
-#[cfg_attr(kani, kani::unwind(12))]
+//@ props=C16 tier=quick unwind=12
 pub fn c16_result_code_values() {
     let x: u16 = nd::any();
     let cv = T::result_code::CodeValue::from(x);
